@@ -32,14 +32,15 @@ Inductive bact :=
 | AResetMetric                      (* resetMetric() *)
 | AAddBad                           (* atomic.AddUint64(&counter.slowCount | errorCount, 1) *)
 | AAddTotal                         (* atomic.AddUint64(&counter.totalCount, 1) *)
-| AHookExit.                        (* entry.WhenExit(rollback hook) *)
+| AHookExit                         (* entry.WhenExit(rollback hook) *)
+| AOnComplete (rt errid : Z).       (* cb.OnRequestComplete(rt, err): errid = identity of the entry's error *)
 
 Definition act_code (a : bact) : Z :=
   match a with
   | ACas _ _ => 1 | AStoreRetry _ => 2 | AAddProbe => 3 | AResetProbe => 4 | AUpdateRetry => 5
   | ANotifyOpen _ _ => 6 | ANotifyHalf _ => 7 | ANotifyClosed _ => 8
   | AClosedToOpen _ => 9 | AHalfToOpen _ => 10 | AHalfToClosed => 11 | AOpenToHalf => 12
-  | AResetMetric => 13 | AAddBad => 14 | AAddTotal => 15 | AHookExit => 16
+  | AResetMetric => 13 | AAddBad => 14 | AAddTotal => 15 | AHookExit => 16 | AOnComplete _ _ => 17
   end.
 
 (* ---------------------------------------------------------------------------------- *)
@@ -71,6 +72,11 @@ Definition from_half_to_closed_leaf (ok : bool) : bool * list bact :=
 (* the exit hook registered by fromOpenToHalfOpen: ctx.IsBlocked() && cas(HalfOpen, Open) *)
 Definition rollback_leaf (blocked ok : bool) : list bact :=
   if blocked then ACas HalfOpen Open :: (if ok then [ANotifyOpen HalfOpen (SF 1%float)] else []) else [].
+
+(* MetricStatSlot.OnCompleted, one iteration of the loop over the resource's breakers: the
+   completion is reported to the breaker exactly once, with the entry's rt and error; nothing
+   else of the entry (batch count, traffic / resource type, args, attachments) is read *)
+Definition stat_slot_step (rt errid : Z) : list bact := [AOnComplete rt errid].
 
 (* ---------------------------------------------------------------------------------- *)
 (* TryPass (the three breakers have the same text)                                      *)
